@@ -152,25 +152,45 @@ def rat_matrix(A):
     return np.array([[e[0] / e[1] for e in row] for row in A], dtype=float)
 
 
+POLE_REPR = ("c", "readonly", "strided", "fortran")
+
+
 def replay_pole_group(geo, group, perturb=False):
-    """All exact rotations of one (hkl, axes) group in one call (an orientation set) and one by one."""
+    """All exact rotations of one (hkl, axes) group in one call (an orientation set) and one by one.  The set is
+    handed over in one of several in-memory representations of the same values (common.represent), and the
+    caller's array is compared with a pristine copy afterwards."""
+    from harness.common import represent
+
     hkl, axes = group[0]["hkl"], group[0]["axes"]
     mats = np.array([rat_matrix(c["A"]) for c in group])
     call_axes = axes
+    kind = POLE_REPR[zlib.crc32(json.dumps([list(hkl), axes]).encode()) % len(POLE_REPR)]
+    arg = represent(mats, kind)
+    raised = 0
     with np.errstate(all="ignore"):
-        xs, ys, zs = geo.poles(mats.copy(), ref_axes=call_axes, hkl=list(hkl))
+        try:
+            xs, ys, zs = (np.asarray(a, dtype=float) for a in geo.poles(arg, ref_axes=call_axes, hkl=list(hkl)))
+        except Exception:  # noqa: BLE001 - an in-domain set must not make poles() raise, whatever its representation
+            raised = 1
+            xs = ys = zs = np.full(len(group), np.nan)
+    argmod = int(not np.array_equal(np.asarray(arg, dtype=float), mats))   # exact: any changed bit counts
     out = []
     for i, c in enumerate(group):
         exp = [ev(t) for t in c["exp"]]
         with np.errstate(all="ignore"):
-            one = [scalar(a) for a in geo.poles(mats[i : i + 1].copy(), ref_axes=call_axes, hkl=list(hkl))]
+            try:
+                one = [scalar(a) for a in geo.poles(mats[i : i + 1].copy(), ref_axes=call_axes, hkl=list(hkl))]
+            except Exception:  # noqa: BLE001
+                raised = 1
+                one = [float("nan")] * 3
         got = [float(xs[i]), float(ys[i]), float(zs[i])]
         if perturb:
             exp[1] = got[1] + 1e-6
         nonfinite = sum(not math.isfinite(g) for g in got + one)
         dev = max(max(abs(g - e), abs(o - e)) for g, o, e in zip(got, one, exp)) if not nonfinite else float("nan")
         unit = abs(math.sqrt(sum(g * g for g in got)) - 1) if not nonfinite else float("nan")
-        out.append((dict(kind="pole", axes=axes, m=dict(nonfinite=nonfinite, dev=mu(dev), unit=mu(unit))), dict(A=c["A"], hkl=hkl, axes=call_axes, got=got, expected=exp)))
+        out.append((dict(kind="pole", axes=axes, m=dict(nonfinite=nonfinite, dev=mu(dev), unit=mu(unit), raised=raised, argmod=argmod)),
+                    dict(A=c["A"], hkl=hkl, axes=call_axes, got=got, expected=exp, representation=kind)))
     return out
 
 
